@@ -292,7 +292,7 @@ fn boundary_alphabet(f: &Field) -> Vec<BigUint> {
 pub fn run(run: &Run) {
     run.set_rule(
         "op x (a,b): all pairs of canonical field elements for every small prime; all pairs of a \
-         boundary alphabet for the three real primes; non-trivial = reference result is not \
+         boundary alphabet for the three real primes; the prime handed to the analysis for every sequence of <= 3 curves on one thread; non-trivial = reference result is not \
          determined by a zero/one operand (a>1 and b>1) or is an error case; oracle = independent \
          reference (BigUint primitives only)",
     );
@@ -368,6 +368,38 @@ pub fn run(run: &Run) {
             }
         }
     });
+    // The prime the analysis computes with is the one of the requested curve, whatever curves
+    // were used before on the same thread: every sequence of <= 3 curves, each on a fresh thread.
+    {
+        use program_structure::constants::{Curve, UsefulConstants};
+        let curves = [("BN254", Curve::Bn254), ("BLS12_381", Curve::Bls12_381), ("GOLDILOCKS", Curve::Goldilocks)];
+        let primes = crate::refsem::field::real_primes();
+        let mut sequences = 0u64;
+        for len in 1..=3usize {
+            for code in 0..3usize.pow(len as u32) {
+                let seq: Vec<usize> = (0..len).map(|i| code / 3usize.pow(i as u32) % 3).collect();
+                sequences += 1;
+                let thread_curves = curves.clone();
+                let seq2 = seq.clone();
+                let got: Vec<String> = std::thread::spawn(move || seq2.iter().map(|i| UsefulConstants::new(&thread_curves[*i].1).prime().to_string()).collect()).join().unwrap_or_default();
+                for (k, i) in seq.iter().enumerate() {
+                    let expected = primes.iter().find(|(n, _)| *n == curves[*i].0).map(|(_, p)| p.to_string()).unwrap_or_default();
+                    if got.get(k) != Some(&expected) {
+                        run.violation(Violation {
+                            signature: format!("curve-prime/{}", curves[*i].0),
+                            what: format!("the prime of {} is wrong when the curves {:?} are used one after the other on one thread", curves[*i].0, seq.iter().map(|j| curves[*j].0).collect::<Vec<_>>()),
+                            case: json!({"kind": "curve-sequence", "sequence": seq}),
+                            expected,
+                            observed: format!("{:?}", got.get(k)),
+                        });
+                        break;
+                    }
+                }
+            }
+        }
+        run.eval(sequences);
+        run.set_extra("curve_sequences", json!(sequences));
+    }
     run.sample(json!({"op": "lesser", "a": "2", "b": "p-1", "p": "BN254", "expected": "0 (p-1 is -1)"}));
     let f = Field::from_u64(11);
     run.sample(json!({"op": "shift_l", "a": "3", "b": "9", "p": "11",
